@@ -94,8 +94,8 @@ type SEn struct {
 	Emb Emb
 	C   int
 }
-type SQ struct{ q int }  // reflect cannot tell it from a Stack handle (one unexported field)
-type SE1 struct{ Emb }   // one exported embedded field
+type SQ struct{ q int } // reflect cannot tell it from a Stack handle (one unexported field)
+type SE1 struct{ Emb }  // one exported embedded field
 
 func tof(x any) reflect.Type { return reflect.TypeOf(x) }
 
@@ -1029,34 +1029,34 @@ func genEqUnit(r *rand.Rand, id, tier string) string {
 
 var eqMsgs = map[string]string{
 	"Not initialized": "notInit",
-	"Cannot perform equality assertion; bad input": "badInput",
-	"Capacity or length mismatch":                  "capLen",
-	"Stack kind mismatch":                          "kind",
-	"Condition keyword mismatch":                   "condKw",
-	"Condition operator mismatch":                  "condOp",
-	"Condition operator (context) mismatch":        "condOpCtx",
-	"Channel(s) invalid":                           "chanInvalid",
-	"Channel kind mismatch":                        "chanKind",
-	"Channel type mismatch":                        "chanType",
-	"Channel mismatch":                             "chanMismatch",
-	"Nil functions incomparable":                   "funcNil",
-	"Function kind mismatch":                       "funcKind",
-	"Function type mismatch":                       "funcType",
-	"primitive mismatch":                           "primMismatch",
-	"primitive incomparable to non-primitive":      "primIncomparable",
-	"Unsupported type":                             "unsupported",
-	"UnsafePointer mismatch":                       "uptrMismatch",
-	"Uintptr or unsafepointer kind mismatch":       "uptrKind",
+	"Cannot perform equality assertion; bad input":      "badInput",
+	"Capacity or length mismatch":                       "capLen",
+	"Stack kind mismatch":                               "kind",
+	"Condition keyword mismatch":                        "condKw",
+	"Condition operator mismatch":                       "condOp",
+	"Condition operator (context) mismatch":             "condOpCtx",
+	"Channel(s) invalid":                                "chanInvalid",
+	"Channel kind mismatch":                             "chanKind",
+	"Channel type mismatch":                             "chanType",
+	"Channel mismatch":                                  "chanMismatch",
+	"Nil functions incomparable":                        "funcNil",
+	"Function kind mismatch":                            "funcKind",
+	"Function type mismatch":                            "funcType",
+	"primitive mismatch":                                "primMismatch",
+	"primitive incomparable to non-primitive":           "primIncomparable",
+	"Unsupported type":                                  "unsupported",
+	"UnsafePointer mismatch":                            "uptrMismatch",
+	"Uintptr or unsafepointer kind mismatch":            "uptrKind",
 	"Cannot compare stackage instances, cannot convert": "cannotConvert",
-	"Cannot compare non-map instances":             "mapNonMap",
-	"Map type mismatch":                            "mapType",
-	"Map length mismatch":                          "mapLen",
-	"Map key mismatch":                             "mapKey",
-	"Struct type mismatch":                         "structType",
-	"Struct field number mismatch":                 "structNum",
-	"Struct anonymous field mismatch failed":       "structAnon",
-	"Slice/array kind mismatch":                    "seqKind",
-	"Slice/array capacity or length mismatch":      "seqCapLen",
+	"Cannot compare non-map instances":                  "mapNonMap",
+	"Map type mismatch":                                 "mapType",
+	"Map length mismatch":                               "mapLen",
+	"Map key mismatch":                                  "mapKey",
+	"Struct type mismatch":                              "structType",
+	"Struct field number mismatch":                      "structNum",
+	"Struct anonymous field mismatch failed":            "structAnon",
+	"Slice/array kind mismatch":                         "seqKind",
+	"Slice/array capacity or length mismatch":           "seqCapLen",
 }
 
 func eqVerdict(err error) string {
